@@ -203,6 +203,15 @@ let () =
          | [ "bad"; k ] -> bads := int_of_string k :: !bads
          | ("envunc" | "envconv") :: _ when !stuck -> ()
          | (("envunc" | "envconv") as op) :: args -> st := step !st (parse_action op args)   (* no observation line *)
+         | [ "restart"; u ] when not !stuck ->
+             (* Close + manager.New on the same directories; u = uid of an unloadable file planted before the start.
+                The environment inputs given before this line apply to the first closure of New (ABoot). *)
+             let unc = !st.unc and cw = !st.cwork in
+             st := restart_impl capdb !st [ n_of_int (int_of_string u) ];
+             st := step !st (AEnvUnc unc);
+             st := step !st (AEnvConvWork cw);
+             st := step !st ABoot;
+             print_state oc !st
          | op :: args ->
              if !stuck then output_string oc "STUCK earlier\n"
              else begin
